@@ -278,7 +278,42 @@ class Deck:
             vecs.append((ax, a, s2.params[0]))
         return vecs
 
+    def locate_hex(self, c, q, depth):
+        """LAT=2: element (i, j) = base prism + i a1 + j a2 (a1 across the first-listed plane, a2 across the third)."""
+        a1, a2 = c.hex_vectors
+        ranges, univs = c.fill_array
+        hit = None
+        for i in range(-4, 5):
+            for j in range(-4, 5):
+                p = (q[0] - i * a1[0] - j * a2[0], q[1] - i * a1[1] - j * a2[1], q[2])
+                v = self.holds(c.expr, p)
+                if v is None:
+                    return None
+                if v:
+                    hit = (i, j)
+        if hit is None:
+            return ['outside-lattice']
+        full = list(hit) + [0] * (len(ranges) - 2)
+        pos, mult = 0, 1
+        for d_, (lo, hi) in enumerate(ranges):
+            if not lo <= full[d_] <= hi:
+                return ['outside-lattice']
+            pos += (full[d_] - lo) * mult
+            mult *= hi - lo + 1
+        u = univs[pos]
+        if u == 0:
+            return ['lattice-universe-0']
+        if u == c.universe:
+            return [c.id]
+        q2 = (q[0] - hit[0] * a1[0] - hit[1] * a2[0], q[1] - hit[0] * a1[1] - hit[1] * a2[1], q[2])
+        sub = self.locate(q2, u, depth + 1)
+        if sub is None or isinstance(sub, tuple):
+            return sub
+        return [c.id] + sub
+
     def locate_lattice(self, c, q, depth):
+        if c.lat == 2:
+            return self.locate_hex(c, q, depth)
         vecs = self.lattice_base(c)
         ranges, univs = c.fill_array
         idx = []
@@ -624,4 +659,74 @@ def lattice_deck(seed):
     d.add_cell(Cell(2, 0, None, ('s', 30), imp=rng.choice([0, 1])))
     d.cells = dict(sorted(d.cells.items()))
     d.lattice_opts = ['50,' + ','.join(f'{lo}:{hi}' for lo, hi in ranges)] if L.homogeneous else []
+    return d
+
+
+# ------------------------------------------------------------------ hexagonal lattices
+
+def hex_deck(seed):
+    """LAT=2 cell bounded by six planes parallel to z (regular or irregular centrally symmetric hexagon, any
+    orientation in the xy plane), planes listed in MCNP order (across-i, opposite, across-j, opposite, the rest),
+    FILL array over i, j; filler universes are small spheres centred in the base prism."""
+    rng = random.Random(f'hex{seed}')
+    d = Deck(f'hex lattice deck seed {seed}')
+    if rng.random() < 0.5:
+        r = rng.choice([0.5, 0.75])
+        a0 = rng.uniform(0, 2 * math.pi)
+        P = [(r * math.cos(a0 + k * math.pi / 3), r * math.sin(a0 + k * math.pi / 3)) for k in range(3)]
+    else:
+        while True:
+            P = [(rng.uniform(-0.9, 0.9), rng.uniform(-0.9, 0.9)) for _ in range(3)]
+            V = P + [(-x, -y) for x, y in P]
+            if all((V[(k + 1) % 6][0] - V[k][0]) * (V[(k + 2) % 6][1] - V[(k + 1) % 6][1])
+                   - (V[(k + 1) % 6][1] - V[k][1]) * (V[(k + 2) % 6][0] - V[(k + 1) % 6][0]) > 0.15 for k in range(6)):
+                break
+    V = P + [(-x, -y) for x, y in P]
+    cx, cy = rng.choice([(0.0, 0.0), (0.25, -0.5)])
+    sides = []
+    for k in range(6):
+        a, b = V[k], V[(k + 1) % 6]
+        n = (b[1] - a[1], -(b[0] - a[0]))
+        if rng.random() < 0.5:
+            n = (-n[0], -n[1])
+        D = n[0] * (a[0] + cx) + n[1] * (a[1] + cy)
+        inside_neg = n[0] * cx + n[1] * cy - D < 0
+        mid = ((a[0] + b[0]) / 2, (a[1] + b[1]) / 2)
+        sides.append((n, D, inside_neg, (2 * mid[0], 2 * mid[1])))
+    first = rng.randrange(6)
+    third = rng.choice([k for k in range(6) if k % 3 != first % 3])
+    rest = [k for k in range(6) if k % 3 not in (first % 3, third % 3)]
+    rng.shuffle(rest)
+    order = [first, (first + 3) % 6, third, (third + 3) % 6] + rest
+    refs = []
+    for sid, k in enumerate(order, start=1):
+        n, D, inside_neg, _ = sides[k]
+        d.add_surf(Surf(sid, 'p', [n[0], n[1], 0.0, D]))
+        refs.append(('s', -sid if inside_neg else sid))
+    e = refs[0]
+    for r_ in refs[1:]:
+        e = ('*', e, r_)
+    d.add_surf(Surf(20, 's', [cx, cy, 0.0, 0.2]))
+    d.add_surf(Surf(21, 's', [cx, cy, 0.0, 0.12]))
+    d.add_surf(Surf(30, 'so', [2.4]))
+    for u, s_, (m1, m2) in ((2, 20, (1, 2)), (3, 21, (4, 2))):
+        d.add_cell(Cell(10 * u, m1, rng.choice(RHOS), ('s', -s_), universe=u))
+        d.add_cell(Cell(10 * u + 1, m2, rng.choice(RHOS), ('s', s_), universe=u))
+        d.materials[m1] = MATS[m1]
+        d.materials[m2] = MATS[m2]
+    ranges = [(rng.choice([-2, -1]), rng.choice([1, 2])), (rng.choice([-1, 0]), rng.choice([1, 2]))]
+    if rng.random() < 0.4:
+        ranges.append((0, 0))
+    n = 1
+    for lo, hi in ranges:
+        n *= hi - lo + 1
+    L = Cell(50, 1, '-1.0', e, universe=9, lat=2)
+    L.fill_array = (ranges, [rng.choice([2, 3, 2, 3, 0, 9]) for _ in range(n)])
+    L.homogeneous = False
+    L.hex_vectors = (sides[first][3], sides[third][3])
+    d.add_cell(L)
+    d.add_cell(Cell(1, 0, None, ('s', -30), fill=9))
+    d.add_cell(Cell(2, 0, None, ('s', 30), imp=0))
+    d.cells = dict(sorted(d.cells.items()))
+    d.lattice_opts = []
     return d
